@@ -46,7 +46,7 @@ def main():
     closure = hv.import_closure(modules + ["Driver.Main"])
     for name, fname in (("grid", "GridTables.lean"), ("anchors", "Anchors.lean"), ("orbits", "OrbitArms.lean"),
                         ("cores", "LinkCores.lean"), ("attrs", "AttrMoves.lean"),
-                        ("links3", "Links3.lean"), ("sews2", "Sews2.lean"), ("sews3", "Sews3.lean"), ("links3c", "Links3Loops.lean"), ("alloc", "Alloc.lean"), ("sews3c", "Sews3Loops.lean")):
+                        ("links3", "Links3.lean"), ("sews2", "Sews2.lean"), ("sews3", "Sews3.lean"), ("links3c", "Links3Loops.lean"), ("alloc", "Alloc.lean"), ("sews3c", "Sews3Loops.lean"), ("dispatch3", "Dispatch3.lean"), ("dispatch2", "Dispatch2.lean"), ("vins", "VertexInsertion.lean"), ("geom", "Geometry.lean"), ("remesh", "Remesh.lean")):
         if name not in gens_needed and any(f.endswith(os.path.join("Gen", fname)) for f in closure):
             gens_needed.append(name)
     if gens_needed:
@@ -99,8 +99,17 @@ def main():
     elif not ok_build and not os.path.exists(hv.HCMODEL):
         pass
     else:
-        tier = args.tier if proof_ok else "thorough"  # broken proof ⇒ search at thorough bounds
+        # broken proof ⇒ search for a failing input: first at the bounds asked for; when that finds no failing input that is not a
+        # listed finding, at thorough bounds (a failing input found early makes the long search pointless: the verdict is the same)
+        tier = args.tier
         res = prop.run(tier, seed)
+        if not proof_ok and tier != "thorough":
+            kn = hv.load_known()
+            unlisted = [v for v in res["violations"] if v.get("found_input") and
+                        not any(k["property"] == pid and prop.matches(k, v) for k in kn.get("findings", []))]
+            if not unlisted:
+                tier = "thorough"
+                res = prop.run(tier, seed)
         stats = res["stats"]
         samples = res["samples"]
         for v in res["violations"]:
